@@ -251,6 +251,10 @@ class LSMTree(Entity):
         # Immutable memtables awaiting flush (for reads during flush)
         self._immutable_memtables: list[Memtable] = []
 
+        # WAL sequence numbers of the writes held by the active memtable; after a
+        # flush exactly these are dropped from the WAL.
+        self._memtable_wal_seqs: list[int] = []
+
         # SSTable levels: levels[0] is L0 (most recent)
         self._levels: list[list[SSTable]] = [[] for _ in range(max_levels)]
 
@@ -343,8 +347,9 @@ class LSMTree(Entity):
 
         # WAL append
         if self._wal is not None:
-            yield from self._wal.append(key, value)
+            seq = yield from self._wal.append(key, value)
             self._total_wal_writes += 1
+            self._memtable_wal_seqs.append(seq)
 
         # Memtable put
         is_full = yield from self._memtable.put(key, value)
@@ -360,8 +365,9 @@ class LSMTree(Entity):
         self._logical_data[key] = value
 
         if self._wal is not None:
-            self._wal.append_sync(key, value)
+            seq = self._wal.append_sync(key, value)
             self._total_wal_writes += 1
+            self._memtable_wal_seqs.append(seq)
 
         is_full = self._memtable.put_sync(key, value)
         if is_full:
@@ -453,8 +459,9 @@ class LSMTree(Entity):
         self._logical_data.pop(key, None)
 
         if self._wal is not None:
-            yield from self._wal.append(key, _TOMBSTONE)
+            seq = yield from self._wal.append(key, _TOMBSTONE)
             self._total_wal_writes += 1
+            self._memtable_wal_seqs.append(seq)
 
         is_full = yield from self._memtable.put(key, _TOMBSTONE)
         if is_full:
@@ -500,6 +507,8 @@ class LSMTree(Entity):
         # Move active memtable to immutable list
         old_memtable = self._memtable
         self._immutable_memtables.append(old_memtable)
+        flushed_wal_seqs = self._memtable_wal_seqs
+        self._memtable_wal_seqs = []
 
         # Create new active memtable
         self._memtable = Memtable(
@@ -524,9 +533,10 @@ class LSMTree(Entity):
         # Remove from immutable list
         self._immutable_memtables.remove(old_memtable)
 
-        # Truncate WAL
+        # Drop from the WAL only what is now in the SSTable; entries written
+        # while the flush was in progress belong to the new memtable.
         if self._wal is not None:
-            self._wal.truncate(self._wal._next_sequence - 1)
+            self._wal.discard(flushed_wal_seqs)
 
         logger.debug(
             "[%s] Flushed memtable to L0 SSTable(%d keys), L0 now has %d SSTables",
@@ -552,7 +562,8 @@ class LSMTree(Entity):
         # Reset memtable (flush() already clears it)
 
         if self._wal is not None:
-            self._wal.truncate(self._wal._next_sequence - 1)
+            self._wal.discard(self._memtable_wal_seqs)
+            self._memtable_wal_seqs = []
 
         if self._compaction_strategy.should_compact(self._levels):
             self._compact_sync()
@@ -669,6 +680,7 @@ class LSMTree(Entity):
         if self._clock is not None:
             self._memtable.set_clock(self._clock)
         self._immutable_memtables.clear()
+        self._memtable_wal_seqs = []
 
         # Crash WAL — discard unsynced entries
         wal_lost = 0
@@ -695,6 +707,7 @@ class LSMTree(Entity):
             entries = self._wal.recover()
             for entry in entries:
                 self._memtable.put_sync(entry.key, entry.value)
+                self._memtable_wal_seqs.append(entry.sequence_number)
             wal_recovered = len(entries)
 
         sstable_keys = sum(s.key_count for level in self._levels for s in level)
